@@ -99,6 +99,7 @@ SUITES = {
            'files': {'DefaultNamespace': 'spydrnet/plugins/namespace_manager/default_namespace.py',
                      'EdifNamespace': 'spydrnet/plugins/namespace_manager/edif_namespace.py'}, 'obligations': 'posts'},
     'clone': {'module': 'specs.clone', 'spec_class': 'CloneSpec', 'functions': 'specs.clone', 'files': {}, 'obligations': 'posts'},
+    'href': {'module': 'specs.href', 'spec_class': 'HRefSpec', 'functions': 'specs.href', 'files': {}, 'obligations': 'posts'},
     'compare': {'module': 'specs.compare', 'spec_class': 'CompareSpec', 'functions': 'specs.compare',
                 'files': {'Comparer': 'spydrnet/compare/compare_netlists.py'}, 'obligations': 'posts'},
 }
